@@ -85,7 +85,7 @@ def _(self: ElemK, display_element: str) -> str:
 
 @contract("SurveyElement.xml_bindings")
 def _(self: ElemK, survey: SurveyS) -> List[XNode]:
-    properties("C05", "C07", "C02")
+    properties("C05", "C07", "C02", "C19")
     no_native("needs survey-element objects: exercised through the e2e oracles")
     locals(bind_dict=StrMap)
     may_raise(PyXFormError, when=True)
